@@ -123,4 +123,90 @@ pub trait EpochDb {
 //@END
 }
 
+// ---------------------------------------------------------------------------------------------
+// Users of the epoch database in the trackers' attribute types: SortAttributesOptions implements
+// EpochDb (accessors pasted verbatim), SortAttributes::baked / VisualAttributes::baked and the two
+// idle lookups are pasted verbatim from their trait impls (as inherent fns: the F-bounded traits
+// TrackAttributes / LookupRequest are not declared in this shim).
+#[verifier::external_body] pub struct Universal2DBox { _p: () }
+#[verifier::external_body] pub struct KalmanState<const X: usize> { _p: () }
+pub const DIM_2D_BOX_X2: usize = 10;
+#[verifier::external_body] pub struct SpatioTemporalConstraints { _p: () }
+#[verifier::external_body] pub struct F32x8 { _p: () }
+pub type Feature = Vec<F32x8>;
+#[verifier::external_body] #[verifier::reject_recursive_types(T)] pub struct Observation<T> { _p: core::marker::PhantomData<T> }
+pub type ObservationsDb<T> = HashMap<u64, Vec<Observation<T>>>;
+#[verifier::external_body] pub struct VisualObservationAttributes { _p: () }
+pub enum VotingType { Visual, Positional }
+pub type VecDeque<T> = std::collections::VecDeque<T>;
+pub type Arc<T> = std::sync::Arc<T>;
+
+//@PASTE-ITEM file=src/trackers/sort.rs anchor=`pub struct SortAttributesOptions {` pubfields=yes
+//@PASTE-ITEM file=src/trackers/sort.rs anchor=`pub struct SortAttributes {` pubfields=yes
+//@PASTE-ITEM file=src/trackers/sort.rs anchor=`pub enum SortLookup {`
+//@PASTE-ITEM file=src/trackers/visual_sort/track_attributes.rs anchor=`pub struct VisualAttributes {` pubfields=yes
+//@PASTE-ITEM file=src/trackers/visual_sort/track_attributes.rs anchor=`pub enum VisualSortLookup {`
+
+impl EpochDb for SortAttributesOptions {
+    open spec fn db(&self) -> Option<RwLock<HashMap<u64, usize>>> { self.epoch_db }
+    open spec fn idle(&self) -> usize { self.max_idle_epochs }
+//@PASTE file=src/trackers/sort.rs anchor=`fn epoch_db(&self) -> &Option<RwLock<HashMap<u64, usize>>> {` after=`impl EpochDb for SortAttributesOptions {` result=r fn=<SortAttributesOptions-as-EpochDb>::epoch_db
+//@END
+//@PASTE file=src/trackers/sort.rs anchor=`fn max_idle_epochs(&self) -> usize {` after=`impl EpochDb for SortAttributesOptions {` result=r fn=<SortAttributesOptions-as-EpochDb>::max_idle_epochs
+//@END
+}
+
+/// the property's notion of an expired track: its scene's epoch exceeds its last update by more than max_idle
+pub open spec fn expired(o: SortAttributesOptions, scene: u64, last_updated: usize) -> bool {
+    o.epoch_db is Some && last_updated + o.max_idle_epochs < epoch_of(o.epoch_db->Some_0.val()@, scene)
+}
+
+impl SortAttributes {
+//@PASTE file=src/trackers/sort.rs anchor=`fn baked(&self, _observations: &ObservationsDb<Universal2DBox>) -> Result<TrackStatus> {` result=r fn=<SortAttributes-as-TrackAttributes>::baked
+        requires self.last_updated_epoch + self.opts.max_idle_epochs <= usize::MAX,
+        ensures
+            //@VACUITY
+            r is Ok && (r.unwrap() is Wasted <==> expired(*self.opts, self.scene_id, self.last_updated_epoch)), //# C03/sort.baked.wasted_iff_own_scene_epoch_exceeds_own_last_update_by_more_than_max_idle
+//@END
+}
+impl VisualAttributes {
+//@PASTE file=src/trackers/visual_sort/track_attributes.rs anchor=`fn baked(` after=`impl TrackAttributes<VisualAttributes, VisualObservationAttributes> for VisualAttributes {` result=r fn=<VisualAttributes-as-TrackAttributes>::baked
+        requires self.last_updated_epoch + self.opts.max_idle_epochs <= usize::MAX,
+        ensures
+            //@VACUITY
+            r is Ok && (r.unwrap() is Wasted <==> expired(*self.opts, self.scene_id, self.last_updated_epoch)), //# C03/visual.baked.wasted_iff_own_scene_epoch_exceeds_own_last_update_by_more_than_max_idle
+//@END
+}
+
+impl SortLookup {
+//@PASTE file=src/trackers/sort.rs anchor=`fn lookup(` after=`impl LookupRequest<SortAttributes, Universal2DBox> for SortLookup {` result=r fn=<SortLookup-as-LookupRequest>::lookup
+        requires
+            attributes.opts.epoch_db is Some,
+            attributes.last_updated_epoch + attributes.opts.max_idle_epochs <= usize::MAX,
+        ensures
+            //@VACUITY
+            r ==> self->IdleLookup_0 == attributes.scene_id, //# C03,C04/sort.idle_lookup.only_tracks_of_that_scene
+            r ==> attributes.last_updated_epoch != epoch_of(attributes.opts.epoch_db->Some_0.val()@, attributes.scene_id), //# C03/sort.idle_lookup.not_updated_in_the_current_epoch
+            r ==> !expired(*attributes.opts, attributes.scene_id, attributes.last_updated_epoch), //# C03/sort.idle_lookup.never_lists_an_expired_track
+            (self->IdleLookup_0 == attributes.scene_id //# C03/sort.idle_lookup.lists_every_unexpired_idle_track_of_the_scene
+                && attributes.last_updated_epoch != epoch_of(attributes.opts.epoch_db->Some_0.val()@, attributes.scene_id)
+                && !expired(*attributes.opts, attributes.scene_id, attributes.last_updated_epoch)) ==> r,
+//@END
+}
+impl VisualSortLookup {
+//@PASTE file=src/trackers/visual_sort/track_attributes.rs anchor=`fn lookup(` after=`impl LookupRequest<VisualAttributes, VisualObservationAttributes> for VisualSortLookup {` result=r fn=<VisualSortLookup-as-LookupRequest>::lookup
+        requires
+            attributes.opts.epoch_db is Some,
+            attributes.last_updated_epoch + attributes.opts.max_idle_epochs <= usize::MAX,
+        ensures
+            //@VACUITY
+            r ==> self->IdleLookup_0 == attributes.scene_id, //# C03,C04/visual.idle_lookup.only_tracks_of_that_scene
+            r ==> attributes.last_updated_epoch != epoch_of(attributes.opts.epoch_db->Some_0.val()@, attributes.scene_id), //# C03/visual.idle_lookup.not_updated_in_the_current_epoch
+            r ==> !expired(*attributes.opts, attributes.scene_id, attributes.last_updated_epoch), //# C03/visual.idle_lookup.never_lists_an_expired_track
+            (self->IdleLookup_0 == attributes.scene_id //# C03/visual.idle_lookup.lists_every_unexpired_idle_track_of_the_scene
+                && attributes.last_updated_epoch != epoch_of(attributes.opts.epoch_db->Some_0.val()@, attributes.scene_id)
+                && !expired(*attributes.opts, attributes.scene_id, attributes.last_updated_epoch)) ==> r,
+//@END
+}
+
 } // verus!
